@@ -5,7 +5,7 @@ Applies each behaviour-preserving edit to /tmp/mut (reset to /repo HEAD), checks
 --keep copies the edit to /verif/seeded/benign/<name>/ with the result in meta.json."""
 import json, os, subprocess, sys, shutil
 ENV = dict(os.environ, GOFLAGS='-mod=mod', GOPROXY='off', GOSUMDB='off', GOTOOLCHAIN='local', GOWORK='off')
-MUT = os.environ.get('MUT', '/tmp/mut')
+MUT = os.environ.get('MUT', '/tmp/mut4')
 MV = MUT + '-verif'
 def sh(cmd, cwd=None, timeout=1800):
     p = subprocess.run(cmd, shell=True, cwd=cwd, env=ENV, capture_output=True, text=True, timeout=timeout)
